@@ -931,7 +931,17 @@ static void cx_gen_text(cx_file *f)
     } else {
         static const char *KEYS[] = { "font", "color", "bind", "geometry", "title", "exec_path", "background", "enabled", "x" };
         if (vh_coin(50)) { cx_buf_adds(&b, KEYS[vh_below(9)]); cx_buf_addc(&b, ' '); }
-        cx_gen_ord(&b, (int) vh_range(1, vh_coin(5) ? 300 : 30), 1);
+        if (cx_g.cycles && vh_coin(2)) {
+            /* the longest lines that still fit the line buffer (CONFIG_BUFF - 2 characters + newline): ordinary lines, delivered once */
+            static const int LONG[] = { 20478, 20477, 20470, 16384, 20478 };
+            int want = LONG[vh_below(5)];
+            while ((int) b.n < want) cx_buf_addc(&b, "abcdefghijklmnopqrstuvwxyz0123456789"[(b.n * 7 + 3) % 36]);
+            vh_count("lines_at_the_length_limit", 1);
+            /* written without surrounding blanks so that the raw line has exactly this length */
+            cx_buf_adds(&f->data, b.b); cx_buf_addc(&f->data, '\n'); cx_g.lines_emitted++;
+            cx_buf_free(&b);
+            return;
+        } else cx_gen_ord(&b, (int) vh_range(1, vh_coin(5) ? 300 : 30), 1);
     }
     cx_gen_line(f, b.b);
     cx_buf_free(&b);
